@@ -176,7 +176,11 @@ class SetV(V):
     __slots__ = ('items',)
 
     def __init__(self, items=None):
-        self.items = list(items or [])
+        # a set holds equal elements once (constants by value, types / functions / enum members by identity of what they name)
+        self.items = []
+        for x in (items or []):
+            if not any(DictV._same_key(y, x) for y in self.items):
+                self.items.append(x)
 
     def __repr__(self):
         return 'SetV(%r)' % (self.items,)
